@@ -242,10 +242,14 @@ def BpDec.decodeCss (S : BpSolver) (d : BpDec) (xd zd : Ldpc) (s : Vec) :
   let probsZ := raddv d.pz d.py
   let xd1 := xd.update probsX
   let zd1 := zd.update probsZ
-  let (zd2, zc) := zd1.decode S sx
+  let zr := zd1.decode S sx
+  let zd2 := zr.1
+  let zc := zr.2
   let newX := updProbs zc d.px d.py d.pz
   let xd2 := if d.cfg.channelUpdate then xd1.update newX else xd1
-  let (xd3, xc) := xd2.decode S sz
+  let xr := xd2.decode S sz
+  let xd3 := xr.1
+  let xc := xr.2
   (xd3, zd2,
    [Event.update xd.matrix probsX, Event.update zd.matrix probsZ,
     Event.decode zd.matrix probsZ sx zc] ++
@@ -259,29 +263,39 @@ def BpDec.decodeFull (S : BpSolver) (d : BpDec) (dd : Ldpc) (s : Vec) :
   let probs := raddv d.pz d.py ++ raddv d.px d.py
   let dd1 := dd.update probs
   -- ldpc: "The syndrome must have length m"
-  if s.length ≠ d.H.length then (dd1, [Event.update dd.matrix probs], .error .valueError)
-  else
-    let (dd2, c) := dd1.decode S s
-    (dd2, [Event.update dd.matrix probs, Event.decode dd.matrix probs s c],
-     .ok (c.drop d.n ++ c.take d.n))
+  if s.length = d.H.length then
+    let r := dd1.decode S s
+    (r.1, [Event.update dd.matrix probs, Event.decode dd.matrix probs s r.2],
+     .ok (r.2.drop d.n ++ r.2.take d.n))
+  else (dd1, [Event.update dd.matrix probs], .error .valueError)
+
+/-- body of `decode` after the lazy initialisation -/
+def BpDec.decodeReady (S : BpSolver) (d : BpDec) (st1 : BpSt) (s : Vec) :
+    BpSt × List (Event Rat) × Except DecErr Vec :=
+  if isCss d.H then
+    -- `syndrome[self.z_indices]`
+    if s.length = d.H.length then
+      match st1.xDec, st1.zDec with
+      | some xd, some zd =>
+        let r := d.decodeCss S xd zd s
+        ({ st1 with xDec := some r.1, zDec := some r.2.1 }, r.2.2.1, .ok r.2.2.2)
+      | _, _ => (st1, [], .error .attributeError)
+    else (st1, [], .error .indexError)
+  else match st1.dec with
+    | some dd =>
+      let r := d.decodeFull S dd s
+      ({ st1 with dec := some r.1 }, r.2.1, r.2.2)
+    | none => (st1, [], .error .attributeError)
+
+/-- `if not self._initialized: self.initialize_decoders()` -/
+def BpDec.ready (d : BpDec) (st : BpSt) : BpSt × List (Event Rat) :=
+  if st.initialized then (st, []) else d.initialize st
 
 /-- `BeliefPropagationOSDDecoder.decode(syndrome)` as a state machine. -/
 def BpDec.decode (S : BpSolver) (d : BpDec) (st0 : BpSt) (s : Vec) :
     BpSt × List (Event Rat) × Except DecErr Vec :=
-  let (st1, ev0) := if st0.initialized then (st0, []) else d.initialize st0
-  if isCss d.H then
-    -- `syndrome[self.z_indices]`
-    if s.length ≠ d.H.length then (st1, ev0, .error .indexError)
-    else match st1.xDec, st1.zDec with
-      | some xd, some zd =>
-        let (xd', zd', ev, c) := d.decodeCss S xd zd s
-        ({ st1 with xDec := some xd', zDec := some zd' }, ev0 ++ ev, .ok c)
-      | _, _ => (st1, ev0, .error .attributeError)
-  else match st1.dec with
-    | some dd =>
-      let (dd', ev, r) := d.decodeFull S dd s
-      ({ st1 with dec := some dd' }, ev0 ++ ev, r)
-    | none => (st1, ev0, .error .attributeError)
+  let r := d.decodeReady S (d.ready st0).1 s
+  (r.1, (d.ready st0).2 ++ r.2.1, r.2.2)
 
 /-- state after decoding a history of syndromes on one object -/
 def BpDec.run (S : BpSolver) (d : BpDec) (st : BpSt) : List Vec → BpSt
@@ -291,17 +305,17 @@ def BpDec.run (S : BpSolver) (d : BpDec) (st : BpSt) : List Vec → BpSt
 /-- the correction as a function of the immutable attributes and the syndrome only -/
 def BpDec.pureDecode (S : BpSolver) (d : BpDec) (s : Vec) : Except DecErr Vec :=
   if isCss d.H then
-    if s.length ≠ d.H.length then .error .indexError
-    else
+    if s.length = d.H.length then
       let zc := S.decode (Hx d.H) true (raddv d.pz d.py) (extractXSyndrome d.H s)
       let probsX := if d.cfg.channelUpdate then updProbs zc d.px d.py d.pz else raddv d.px d.py
       let xc := S.decode (Hz d.H) true probsX (extractZSyndrome d.H s)
       .ok (xc ++ zc)
+    else .error .indexError
   else
-    if s.length ≠ d.H.length then .error .valueError
-    else
+    if s.length = d.H.length then
       let c := S.decode d.H false (raddv d.pz d.py ++ raddv d.px d.py) s
       .ok (c.drop d.n ++ c.take d.n)
+    else .error .valueError
 
 /-! ### SweepMatchDecoder / RotatedSweepMatchDecoder -/
 
@@ -323,6 +337,27 @@ def sweepMatchDecode {W R : Type} (sweep : R → Vec → R × Vec) (solve : WSol
 def sweepMatchMatcher {W : Type} (H : Mat) (n : Nat) (modelWeights : List W × List W) :
     Except DecErr (MatchingDec W) :=
   MatchingDec.new H n (some "X") none modelWeights
+
+/-! ### specification vocabulary used by the contracts and theorems -/
+
+/-- plain GF(2) matrix-vector product `M · v (mod 2)` of a sector matrix -/
+def sectorSyndrome (M : Mat) (v : Vec) : Vec := M.map fun r => dot r v % 2
+
+/-- Hamming weight of a 0/1 vector -/
+def hammingWt (v : Vec) : Nat := v.countP (· ≠ 0)
+
+/-- `MatchingDecoder` seen as a (trivial) state machine: the object is not changed by `decode` -/
+def MatchingDec.step {W : Type} (solve : WSolver W) (d : MatchingDec W) (s : Vec) :
+    MatchingDec W × Except DecErr (Vec × List (Event W)) := (d, d.decode solve s)
+
+def MatchingDec.run {W : Type} (solve : WSolver W) (d : MatchingDec W) : List Vec → MatchingDec W
+  | [] => d
+  | s :: rest => MatchingDec.run solve (d.step solve s).1 rest
+
+/-- state of the sweeper's generator after a history of calls -/
+def sweepRun {R : Type} (sweep : R → Vec → R × Vec) (rng : R) : List Vec → R
+  | [] => rng
+  | s :: rest => sweepRun sweep (sweep rng s).1 rest
 
 /-- interface every decoder promises: a binary vector of length `2n` -/
 def validCorrection (n : Nat) (c : Vec) : Bool := c.length == 2 * n && isBinary c
